@@ -1,0 +1,44 @@
+//go:build verif
+
+package queue
+
+// Verification hook (build tag `verif` only): the deque's unexported index arithmetic, run on a deque put together
+// for the purpose — the REAL prev / next / At / Set / shrinkIfExcess are called, nothing is re-implemented here.
+// Used by the translator check of the verification harness. Nothing here is compiled without the tag.
+
+// VerifPrev is q.prev(i) for a deque whose buffer has n slots.
+func VerifPrev(n, i int) int { return (&Deque{buf: make([]interface{}, n)}).prev(i) }
+
+// VerifNext is q.next(i) for a deque whose buffer has n slots.
+func VerifNext(n, i int) int { return (&Deque{buf: make([]interface{}, n)}).next(i) }
+
+func verifNumbered(head, n, i int) *Deque {
+	q := &Deque{buf: make([]interface{}, n), head: head, count: i + 1}
+	for k := range q.buf {
+		q.buf[k] = k
+	}
+	return q
+}
+
+// VerifAtPos is the buffer slot At(i) reads (head as given, n slots, i+1 elements).
+func VerifAtPos(head, n, i int) int { return verifNumbered(head, n, i).At(i).(int) }
+
+// VerifSetPos is the buffer slot Set(i, …) writes.
+func VerifSetPos(head, n, i int) int {
+	q := verifNumbered(head, n, i)
+	q.Set(i, -1)
+	for k, v := range q.buf {
+		if v.(int) == -1 {
+			return k
+		}
+	}
+	return -1
+}
+
+// VerifShrinks reports whether shrinkIfExcess resizes a deque of `count` elements (at the start of a buffer of n >= 1
+// slots) whose minimum capacity is minCap.
+func VerifShrinks(count, minCap, n int) bool {
+	q := &Deque{buf: make([]interface{}, n), tail: count, count: count, minCap: minCap}
+	q.shrinkIfExcess()
+	return len(q.buf) != n
+}
